@@ -13,6 +13,10 @@ import (
 	files "github.com/ipfs/go-libipfs/files"
 )
 
+// maxSnapshotItemSize is the largest header or entry the snapshot format,
+// which uses 16-bit length prefixes, can hold.
+const maxSnapshotItemSize = 1<<16 - 1
+
 func SaveSnapshot(ctx context.Context, b iface.Store) (cid.Cid, error) {
 	// @glouvigny: I'd rather use protobuf here but I decided to keep the
 	// JS behavior for the sake of compatibility across implementations
@@ -45,6 +49,9 @@ func SaveSnapshot(ctx context.Context, b iface.Store) (cid.Cid, error) {
 	}
 
 	headerSize := len(header)
+	if headerSize > maxSnapshotItemSize {
+		return cid.Cid{}, fmt.Errorf("unable to save snapshot: header of %d bytes exceeds the %d bytes the format can describe", headerSize, maxSnapshotItemSize)
+	}
 
 	size := make([]byte, 2)
 	binary.BigEndian.PutUint16(size, uint16(headerSize))
@@ -55,6 +62,10 @@ func SaveSnapshot(ctx context.Context, b iface.Store) (cid.Cid, error) {
 
 		if err != nil {
 			return cid.Cid{}, fmt.Errorf("unable to serialize entry as JSON: %w", err)
+		}
+
+		if len(entryJSON) > maxSnapshotItemSize {
+			return cid.Cid{}, fmt.Errorf("unable to save snapshot: entry %s of %d bytes exceeds the %d bytes the format can describe", e.GetHash(), len(entryJSON), maxSnapshotItemSize)
 		}
 
 		size := make([]byte, 2)
